@@ -199,7 +199,7 @@ func (p *c12) aliasRebind(rec *core.Recorder, r *core.Rand) {
 	A := func(v string) string { return "<a:" + v + ":da>" }
 	B := func(v string) string { return "<b:" + v + ":db>" }
 	var want string
-	v := r.Intn(22)
+	v := r.Intn(23)
 	L := func(v string) string { return "<l:" + v + ":dl>" }
 	local := "{% macro x(v, w = 'dl') %}<l:{{ v }}:{{ w }}>{% endmacro %}"
 	// a library whose macros call each other and themselves, by name and through _self
@@ -207,6 +207,19 @@ func (p *c12) aliasRebind(rec *core.Recorder, r *core.Rand) {
 		"{% macro rec(n) %}{{ n }}{% if n > 1 %},{{ _self.rec(n - 1) }}{% endif %}{% endmacro %}{% macro rec2(n) %}{{ n }}{% if n > 1 %};{{ rec2(n - 1) }}{% endif %}{% endmacro %}"
 	sib := func(v string) string { return "[<i:" + v + "><i:" + v + ">]|3,2,1|2;1" }
 	switch v {
+	case 22:
+		// a macro called above the place where it is written, directly and through _self, at the top level, in a loop and in
+		// an included template
+		switch r.Intn(3) {
+		case 0:
+			srcs["main"] = "{{ x(" + a + ") }}|{{ _self.x(" + b + ") }}" + local
+		case 1:
+			srcs["main"] = "{% for i in [1] %}{{ x(" + a + ") }}{% endfor %}|{% if true %}{{ _self.x(" + b + ") }}{% endif %}" + local + "{{ 0 ? 'n' : '' }}"
+		default:
+			srcs["main"] = "{% include 'part' %}"
+			srcs["part"] = "{{ x(" + a + ") }}|{{ _self.x(" + b + ") }}" + local
+		}
+		want = L(a) + "|" + L(b)
 	case 20:
 		// a library that defines one macro only, which calls itself (by name or through _self), however it is reached; the
 		// importing template's own macro of the same name is not what it calls
